@@ -773,7 +773,9 @@ class LLUDPMessageLogEntry(AbstractMessageLogEntry):
                     elif selector_len == 4:
                         try:
                             deserialized = block.deserialize_var(var_name)
-                        except KeyError:
+                        except Exception:
+                            # No subfield serializer for this var, or its contents don't decode.
+                            # Either way it has no such subfield, the comparison is false for it.
                             continue
                         # Discard the tag if this is a tagged union, we only want the value
                         if isinstance(deserialized, TaggedUnion):
